@@ -1,10 +1,467 @@
-// Enumerated operator / operand / context matrix for C01 (filled in below).
-use crate::cmodel::*;
+// Enumerated operator / operand-kind / destination / context matrix for C01 (also reused by
+// C02, C04, C13 as a deterministic core).  Small single-purpose programs: what makes a flipped
+// branch, a lost carry or a wrong operand order certain to show.  Shapes that belong to a
+// known-finding family (see known_findings.json) are not enumerated here; they have pinned
+// witnesses instead.
 
-pub fn matrix_len() -> u64 {
-    0
+use crate::cmodel::*;
+use std::sync::OnceLock;
+
+pub struct B {
+    pub p: Program,
 }
 
-pub fn matrix_program(_idx: u64) -> Program {
-    Program::default()
+// fixed variable ids
+pub const A: VarId = 0; // unsigned char a
+pub const BV: VarId = 1; // unsigned char b
+pub const C: VarId = 2; // unsigned char c
+pub const R: VarId = 3; // unsigned char r
+pub const SA: VarId = 4; // signed char sa
+pub const SB: VarId = 5; // signed char sb
+pub const S: VarId = 6; // unsigned short s
+pub const T: VarId = 7; // unsigned short t
+pub const U: VarId = 8; // unsigned short u
+pub const V: VarId = 9; // short v
+pub const W: VarId = 10; // short w
+pub const ARR: VarId = 11; // unsigned char arr[8]
+pub const TAB: VarId = 12; // const unsigned char tab[8]
+pub const P: VarId = 13; // char *p
+pub const N: VarId = 14; // unsigned char n (loop counter)
+
+pub fn base() -> Program {
+    let mut p = Program::default();
+    let g = |name: &str, kind: VarKind| VarDecl { name: name.into(), kind, mem: MemClass::Zp, scope: Scope::Global };
+    p.vars.push(g("a", VarKind::Scalar(Ty::U8)));
+    p.vars.push(g("b", VarKind::Scalar(Ty::U8)));
+    p.vars.push(g("c", VarKind::Scalar(Ty::U8)));
+    p.vars.push(g("r", VarKind::Scalar(Ty::U8)));
+    p.vars.push(g("sa", VarKind::Scalar(Ty::I8)));
+    p.vars.push(g("sb", VarKind::Scalar(Ty::I8)));
+    p.vars.push(g("s", VarKind::Scalar(Ty::U16)));
+    p.vars.push(g("t", VarKind::Scalar(Ty::U16)));
+    p.vars.push(g("u", VarKind::Scalar(Ty::U16)));
+    p.vars.push(g("v", VarKind::Scalar(Ty::I16)));
+    p.vars.push(g("w", VarKind::Scalar(Ty::I16)));
+    p.vars.push(g("arr", VarKind::Array(Ty::U8, 8)));
+    p.vars.push(g("tab", VarKind::ConstTab(Ty::U8, vec![0, 1, 0x7f, 0x80, 0xff, 0x55, 0xaa, 3])));
+    p.vars.push(g("p", VarKind::Ptr));
+    p.vars.push(g("n", VarKind::Scalar(Ty::U8)));
+    p
+}
+
+fn lvv(v: VarId) -> Expr {
+    Expr::Lv(LV::Var(v))
+}
+fn num(n: i32) -> Expr {
+    Expr::Num(n)
+}
+fn bin(op: BinOp, a: Expr, b: Expr) -> Expr {
+    Expr::Bin(op, Box::new(a), Box::new(b))
+}
+fn assign(l: LV, e: Expr) -> Stmt {
+    Stmt::Expr(Expr::Assign(l, Box::new(e)))
+}
+fn idx(a: VarId, e: Expr) -> LV {
+    LV::Idx(a, Box::new(e))
+}
+
+fn main_with(body: Vec<Stmt>) -> Program {
+    let mut p = base();
+    let mut b = vec![assign(LV::Var(P), Expr::AddrOf(ARR))];
+    b.extend(body);
+    p.funcs.push(Func { name: "main".into(), ret: None, params: vec![], body: b, inline: false, interrupt: false, proto_first: false });
+    p
+}
+
+/// 8-bit operand kinds: (setup statements, expression)
+fn operands8() -> Vec<(&'static str, Vec<Stmt>, Expr)> {
+    vec![
+        ("const", vec![], num(0x35)),
+        ("const-hi", vec![], num(0xc8)),
+        ("const1", vec![], num(1)),
+        ("u8", vec![], lvv(A)),
+        ("u8b", vec![], lvv(BV)),
+        ("X", vec![], Expr::Lv(LV::X)),
+        ("Y", vec![], Expr::Lv(LV::Y)),
+        ("arr[k]", vec![], Expr::Lv(idx(ARR, num(3)))),
+        ("arr[X]", vec![assign(LV::X, num(2))], Expr::Lv(idx(ARR, Expr::Lv(LV::X)))),
+        ("arr[Y]", vec![assign(LV::Y, num(5))], Expr::Lv(idx(ARR, Expr::Lv(LV::Y)))),
+        ("tab[X]", vec![assign(LV::X, num(4))], Expr::Lv(idx(TAB, Expr::Lv(LV::X)))),
+        ("tab[k]", vec![], Expr::Lv(idx(TAB, num(6)))),
+        ("p[Y]", vec![assign(LV::Y, num(1))], Expr::Lv(LV::PtrIdx(P, Box::new(Expr::Lv(LV::Y))))),
+        ("paren", vec![], Expr::Paren(Box::new(bin(BinOp::And, lvv(C), num(0x3c))))),
+        ("sub-expr", vec![], bin(BinOp::Xor, lvv(C), lvv(BV))),
+    ]
+}
+
+fn dests8() -> Vec<(&'static str, Vec<Stmt>, LV)> {
+    vec![
+        ("u8", vec![], LV::Var(R)),
+        ("X", vec![], LV::X),
+        ("Y", vec![], LV::Y),
+        ("arr[k]", vec![], idx(ARR, num(1))),
+        ("arr[X]", vec![assign(LV::X, num(6))], idx(ARR, Expr::Lv(LV::X))),
+        ("arr[Y]", vec![assign(LV::Y, num(7))], idx(ARR, Expr::Lv(LV::Y))),
+    ]
+}
+
+fn uses(e: &Expr, l: &LV) -> bool {
+    // does expression e read register X / Y (as value or index)?
+    fn lv_uses(x: &LV, l: &LV) -> bool {
+        match x {
+            LV::X => matches!(l, LV::X),
+            LV::Y => matches!(l, LV::Y),
+            LV::Idx(_, i) | LV::PtrIdx(_, i) => uses(i, l),
+            _ => false,
+        }
+    }
+    match e {
+        Expr::Lv(x) => lv_uses(x, l),
+        Expr::Bin(_, a, b) => uses(a, l) || uses(b, l),
+        Expr::Un(_, a) | Expr::Paren(a) => uses(a, l),
+        _ => false,
+    }
+}
+
+fn conflicting(setups: &[&Vec<Stmt>], exprs: &[&Expr], dest: Option<&LV>) -> bool {
+    // two different setups of the same register, or a destination register that a setup pins
+    let mut xs = 0;
+    let mut ys = 0;
+    for s in setups {
+        for st in s.iter() {
+            if let Stmt::Expr(Expr::Assign(LV::X, _)) = st {
+                xs += 1;
+            }
+            if let Stmt::Expr(Expr::Assign(LV::Y, _)) = st {
+                ys += 1;
+            }
+        }
+    }
+    if xs > 1 || ys > 1 {
+        return true;
+    }
+    if let Some(d) = dest {
+        // destination X while an operand is indexed by X is fine; but the *index* of the
+        // destination must not be clobbered: dest arr[X] with setup X=6 and operand setup X=2
+        let _ = d;
+    }
+    let _ = exprs;
+    false
+}
+
+fn build() -> Vec<Program> {
+    let mut v: Vec<Program> = Vec::new();
+    let ops = [BinOp::Add, BinOp::Sub, BinOp::And, BinOp::Or, BinOp::Xor];
+    let o8 = operands8();
+    let d8 = dests8();
+    // 1. binary operators: dest = L op R
+    for op in ops.iter() {
+        for (ln, ls, le) in o8.iter() {
+            for (rn, rs, re) in o8.iter() {
+                if ln.starts_with("const") && rn.starts_with("const") {
+                    continue; // constant folding is C10's
+                }
+                for (dn, ds, dl) in d8.iter() {
+                    // keep the matrix affordable: full product on the plain destination, a
+                    // diagonal on the others
+                    if *dn != "u8" && !(ln == rn || *ln == "u8" || *rn == "const") {
+                        continue;
+                    }
+                    if conflicting(&[ls, rs, ds], &[le, re], Some(dl)) {
+                        continue;
+                    }
+                    // a destination indexed by Y (or p[Y]) together with a Y-scratch is not used here
+                    let mut body = Vec::new();
+                    body.extend(ls.clone());
+                    body.extend(rs.clone());
+                    body.extend(ds.clone());
+                    body.push(assign(dl.clone(), bin(*op, le.clone(), re.clone())));
+                    v.push(main_with(body));
+                }
+            }
+        }
+    }
+    // 2. shifts and unary operators
+    for (ln, ls, le) in o8.iter() {
+        if ln.starts_with("const") {
+            continue;
+        }
+        for k in 1..=7 {
+            for op in [BinOp::Shl, BinOp::Shr] {
+                let mut body = ls.clone();
+                body.push(assign(LV::Var(R), bin(op, le.clone(), num(k))));
+                v.push(main_with(body));
+            }
+        }
+        for op in [UnOp::Neg, UnOp::BNot] {
+            let mut body = ls.clone();
+            body.push(assign(LV::Var(R), Expr::Un(op, Box::new(le.clone()))));
+            v.push(main_with(body));
+        }
+        // !x as a value
+        let mut body = ls.clone();
+        body.push(assign(LV::Var(R), Expr::Un(UnOp::Not, Box::new(le.clone()))));
+        v.push(main_with(body));
+    }
+    // 3. compound assignment and ++/--
+    for (dn, ds, dl) in d8.iter() {
+        for (rn, rs, re) in o8.iter() {
+            if conflicting(&[rs, ds], &[re], Some(dl)) {
+                continue;
+            }
+            if uses(re, dl) {
+                continue;
+            }
+            for op in ops.iter() {
+                let mut body = rs.clone();
+                body.extend(ds.clone());
+                body.push(Stmt::Expr(Expr::OpAssign(*op, dl.clone(), Box::new(re.clone()))));
+                v.push(main_with(body));
+            }
+            let _ = (dn, rn);
+        }
+        for k in 1..=7 {
+            for op in [BinOp::Shl, BinOp::Shr] {
+                let mut body = ds.clone();
+                body.push(Stmt::Expr(Expr::OpAssign(op, dl.clone(), Box::new(num(k)))));
+                v.push(main_with(body));
+            }
+        }
+        for post in [false, true] {
+            for inc in [false, true] {
+                let mut body = ds.clone();
+                body.push(Stmt::Expr(Expr::IncDec { lv: dl.clone(), post, inc }));
+                v.push(main_with(body));
+                // value of the ++/-- expression
+                if !matches!(dl, LV::Var(R)) {
+                    let mut body = ds.clone();
+                    body.push(assign(LV::Var(R), Expr::IncDec { lv: dl.clone(), post, inc }));
+                    v.push(main_with(body));
+                }
+            }
+        }
+    }
+    // 4. comparisons in every context (unsigned operands; constants are non-zero: see R3)
+    let cmps = [BinOp::Eq, BinOp::Ne, BinOp::Lt, BinOp::Le, BinOp::Gt, BinOp::Ge];
+    let cmp_l: Vec<(&str, Vec<Stmt>, Expr)> = o8.iter().filter(|o| !o.0.starts_with("const")).cloned().collect();
+    let cmp_r: Vec<(&str, Vec<Stmt>, Expr)> = vec![
+        ("const", vec![], num(0x35)),
+        ("const80", vec![], num(0x80)),
+        ("constff", vec![], num(0xff)),
+        ("const1", vec![], num(1)),
+        ("u8", vec![], lvv(BV)),
+        ("arr[k]", vec![], Expr::Lv(idx(ARR, num(3)))),
+        ("tab[k]", vec![], Expr::Lv(idx(TAB, num(3)))),
+    ];
+    for op in cmps.iter() {
+        for (_ln, ls, le) in cmp_l.iter() {
+            for (_rn, rs, re) in cmp_r.iter() {
+                let cond = bin(*op, le.clone(), re.clone());
+                let set1 = assign(LV::Var(R), num(1));
+                let set2 = assign(LV::Var(R), num(2));
+                // if
+                let mut body = ls.clone();
+                body.extend(rs.clone());
+                body.push(assign(LV::Var(R), num(0)));
+                body.push(Stmt::If(cond.clone(), Box::new(set1.clone()), None));
+                v.push(main_with(body));
+                // if / else
+                let mut body = ls.clone();
+                body.extend(rs.clone());
+                body.push(Stmt::If(cond.clone(), Box::new(set1.clone()), Some(Box::new(set2.clone()))));
+                v.push(main_with(body));
+                // value
+                let mut body = ls.clone();
+                body.extend(rs.clone());
+                body.push(assign(LV::Var(R), cond.clone()));
+                v.push(main_with(body));
+                // ternary
+                let mut body = ls.clone();
+                body.extend(rs.clone());
+                body.push(assign(LV::Var(R), Expr::Cond(Box::new(cond.clone()), Box::new(num(7)), Box::new(lvv(C)))));
+                v.push(main_with(body));
+                // negated
+                let mut body = ls.clone();
+                body.extend(rs.clone());
+                body.push(assign(LV::Var(R), num(0)));
+                body.push(Stmt::If(Expr::Un(UnOp::Not, Box::new(Expr::Paren(Box::new(cond.clone())))), Box::new(set1.clone()), None));
+                v.push(main_with(body));
+                // && and || with a second comparison
+                for lop in [BinOp::LAnd, BinOp::LOr] {
+                    let c2 = bin(BinOp::Ne, lvv(C), num(9));
+                    let mut body = ls.clone();
+                    body.extend(rs.clone());
+                    body.push(Stmt::If(bin(lop, cond.clone(), c2.clone()), Box::new(set1.clone()), Some(Box::new(set2.clone()))));
+                    v.push(main_with(body));
+                    let mut body = ls.clone();
+                    body.extend(rs.clone());
+                    body.push(Stmt::If(bin(lop, c2, cond.clone()), Box::new(set1.clone()), Some(Box::new(set2.clone()))));
+                    v.push(main_with(body));
+                }
+            }
+        }
+    }
+    // 5. loops driven by each comparison: n counts iterations
+    for op in [BinOp::Lt, BinOp::Ne, BinOp::Le] {
+        for limit in [1, 3, 5] {
+            for cnt in [LV::Var(A), LV::X, LV::Y] {
+                let c = Expr::Lv(cnt.clone());
+                let cond = bin(op, c.clone(), num(limit));
+                let inc = Expr::IncDec { lv: cnt.clone(), post: true, inc: true };
+                let bump = Stmt::Expr(Expr::IncDec { lv: LV::Var(N), post: true, inc: true });
+                // for
+                v.push(main_with(vec![
+                    assign(LV::Var(N), num(0)),
+                    Stmt::For(Some(Expr::Assign(cnt.clone(), Box::new(num(0)))), Some(cond.clone()), Some(inc.clone()), Box::new(bump.clone())),
+                ]));
+                // while
+                v.push(main_with(vec![
+                    assign(LV::Var(N), num(0)),
+                    assign(cnt.clone(), num(0)),
+                    Stmt::While(cond.clone(), Box::new(Stmt::Block(vec![bump.clone(), Stmt::Expr(inc.clone())]))),
+                ]));
+                // do-while
+                v.push(main_with(vec![
+                    assign(LV::Var(N), num(0)),
+                    assign(cnt.clone(), num(0)),
+                    Stmt::DoWhile(Box::new(Stmt::Block(vec![bump.clone(), Stmt::Expr(inc.clone())])), cond.clone()),
+                ]));
+                // for with break / continue
+                v.push(main_with(vec![
+                    assign(LV::Var(N), num(0)),
+                    Stmt::For(
+                        Some(Expr::Assign(cnt.clone(), Box::new(num(0)))),
+                        Some(cond.clone()),
+                        Some(inc.clone()),
+                        Box::new(Stmt::Block(vec![
+                            Stmt::If(bin(BinOp::Eq, lvv(BV), num(2)), Box::new(Stmt::Continue), None),
+                            bump.clone(),
+                            Stmt::If(bin(BinOp::Eq, lvv(C), num(2)), Box::new(Stmt::Break), None),
+                        ])),
+                    ),
+                ]));
+            }
+        }
+    }
+    // 6. switch
+    for sel in [lvv(A), Expr::Lv(LV::X), Expr::Lv(LV::Y), Expr::Lv(idx(ARR, num(2)))] {
+        for variant in 0..4 {
+            let cases = match variant {
+                0 => vec![(vec![1], vec![assign(LV::Var(R), num(10)), Stmt::Break]), (vec![2], vec![assign(LV::Var(R), num(20)), Stmt::Break])],
+                1 => vec![(vec![1], vec![assign(LV::Var(R), num(10))]), (vec![2], vec![assign(LV::Var(C), num(20)), Stmt::Break])], // fall through
+                2 => vec![(vec![1, 3], vec![assign(LV::Var(R), num(10)), Stmt::Break]), (vec![0x80], vec![assign(LV::Var(R), num(20)), Stmt::Break])],
+                _ => vec![(vec![0xff], vec![assign(LV::Var(R), num(10)), Stmt::Break])],
+            };
+            for def in [false, true] {
+                let d = if def { Some(vec![assign(LV::Var(R), num(99))]) } else { None };
+                v.push(main_with(vec![assign(LV::Var(R), num(0)), Stmt::Switch(sel.clone(), cases.clone(), d)]));
+            }
+        }
+    }
+    // 7. 16-bit: s = L op R ; s op= R ; ++ -- ; shifts ; widening ; comparisons
+    let o16: Vec<(&str, Expr)> = vec![
+        ("u16", lvv(T)),
+        ("u16b", lvv(U)),
+        ("i16", lvv(V)),
+        ("const", num(0x1234)),
+        ("const-lo", num(0x00ff)),
+        ("const-hi", num(0x7f00)),
+        ("const1", num(1)),
+        ("u8", lvv(A)),
+    ];
+    for op in ops.iter() {
+        for (ln, le) in o16.iter() {
+            for (rn, re) in o16.iter() {
+                if ln.starts_with("const") && rn.starts_with("const") {
+                    continue;
+                }
+                if *ln == "u8" {
+                    continue; // an 8-bit left operand in a 16-bit sum: R1
+                }
+                for d in [S, V] {
+                    v.push(main_with(vec![assign(LV::Var(d), bin(*op, le.clone(), re.clone()))]));
+                }
+            }
+        }
+        for (_rn, re) in o16.iter() {
+            for d in [S, V] {
+                v.push(main_with(vec![Stmt::Expr(Expr::OpAssign(*op, LV::Var(d), Box::new(re.clone())))]));
+            }
+        }
+    }
+    for d in [S, V] {
+        for post in [false, true] {
+            for inc in [false, true] {
+                v.push(main_with(vec![Stmt::Expr(Expr::IncDec { lv: LV::Var(d), post, inc })]));
+            }
+        }
+        for k in 1..=7 {
+            v.push(main_with(vec![Stmt::Expr(Expr::OpAssign(BinOp::Shl, LV::Var(d), Box::new(num(k))))]));
+            v.push(main_with(vec![Stmt::Expr(Expr::OpAssign(BinOp::Shr, LV::Var(d), Box::new(num(k))))]));
+        }
+        // widening and narrowing
+        for src in [lvv(A), lvv(SA), Expr::Lv(LV::X), Expr::Lv(LV::Y), num(200), num(0x1234)] {
+            v.push(main_with(vec![assign(LV::Var(d), src)]));
+        }
+        v.push(main_with(vec![assign(LV::Var(R), lvv(d))]));
+        v.push(main_with(vec![assign(LV::Var(d), bin(BinOp::Shl, lvv(A), num(8)))]));
+        v.push(main_with(vec![assign(LV::Var(R), bin(BinOp::Shr, lvv(T), num(8)))]));
+    }
+    for op in [BinOp::Eq, BinOp::Ne, BinOp::Lt, BinOp::Ge] {
+        for (l, r) in [(lvv(S), lvv(T)), (lvv(S), num(0x1234)), (lvv(S), num(0x0100)), (lvv(S), num(0x00ff)), (lvv(T), lvv(S))] {
+            let cond = bin(op, l, r);
+            v.push(main_with(vec![Stmt::If(cond.clone(), Box::new(assign(LV::Var(R), num(1))), Some(Box::new(assign(LV::Var(R), num(2)))))]));
+        }
+    }
+    for op in [BinOp::Eq, BinOp::Ne] {
+        let cond = bin(op, lvv(V), lvv(W));
+        v.push(main_with(vec![Stmt::If(cond, Box::new(assign(LV::Var(R), num(1))), Some(Box::new(assign(LV::Var(R), num(2)))))]));
+    }
+    // bare 16-bit condition
+    v.push(main_with(vec![Stmt::If(lvv(S), Box::new(assign(LV::Var(R), num(1))), Some(Box::new(assign(LV::Var(R), num(2)))))]));
+    // 8. signed char: sign extension, compare with zero, equality, negate
+    for op in [BinOp::Lt, BinOp::Le, BinOp::Gt, BinOp::Ge, BinOp::Eq, BinOp::Ne] {
+        let cond = bin(op, lvv(SA), num(0));
+        v.push(main_with(vec![Stmt::If(cond, Box::new(assign(LV::Var(R), num(1))), Some(Box::new(assign(LV::Var(R), num(2)))))]));
+    }
+    for op in [BinOp::Eq, BinOp::Ne] {
+        let cond = bin(op, lvv(SA), lvv(SB));
+        v.push(main_with(vec![Stmt::If(cond, Box::new(assign(LV::Var(R), num(1))), Some(Box::new(assign(LV::Var(R), num(2)))))]));
+    }
+    v.push(main_with(vec![assign(LV::Var(SB), Expr::Un(UnOp::Neg, Box::new(lvv(SA))))]));
+    v.push(main_with(vec![assign(LV::Var(V), lvv(SA))]));
+    v.push(main_with(vec![assign(LV::Var(SB), bin(BinOp::Shr, lvv(SA), num(1)))]));
+    // 9. functions: parameters, return values in expressions, nested expressions around calls
+    for variant in 0..8 {
+        let mut p = base();
+        let px = p.vars.len();
+        p.vars.push(VarDecl { name: "x".into(), kind: VarKind::Scalar(Ty::U8), mem: MemClass::Zp, scope: Scope::Param(0) });
+        p.vars.push(VarDecl { name: "y".into(), kind: VarKind::Scalar(Ty::U8), mem: MemClass::Zp, scope: Scope::Param(0) });
+        let fbody = vec![Stmt::Return(Some(bin(BinOp::Sub, lvv(px), lvv(px + 1))))];
+        p.funcs.push(Func { name: "f".into(), ret: Some(Ty::U8), params: vec![px, px + 1], body: fbody, inline: variant % 2 == 1, interrupt: false, proto_first: false });
+        let call = |a: Expr, b: Expr| Expr::Call(0, vec![a, b]);
+        let body = match variant / 2 {
+            0 => vec![assign(LV::Var(R), call(lvv(A), lvv(BV)))],
+            1 => vec![assign(LV::Var(R), bin(BinOp::Add, call(lvv(A), num(3)), lvv(C)))],
+            2 => vec![assign(LV::Var(R), bin(BinOp::Sub, lvv(C), call(Expr::Lv(LV::X), Expr::Lv(LV::Y))))],
+            _ => vec![Stmt::If(bin(BinOp::Eq, call(lvv(A), lvv(BV)), num(0)), Box::new(assign(LV::Var(R), num(1))), Some(Box::new(assign(LV::Var(R), num(2)))))],
+        };
+        p.funcs.push(Func { name: "main".into(), ret: None, params: vec![], body, inline: false, interrupt: false, proto_first: false });
+        v.push(p);
+    }
+    v
+}
+
+static MATRIX: OnceLock<Vec<Program>> = OnceLock::new();
+
+pub fn matrix() -> &'static Vec<Program> {
+    MATRIX.get_or_init(build)
+}
+
+pub fn matrix_len() -> u64 {
+    matrix().len() as u64
+}
+
+pub fn matrix_program(idx: u64) -> Program {
+    matrix()[idx as usize].clone()
 }
